@@ -77,3 +77,12 @@ claim("C16", "other", "path counting and value provenance of metric-call argumen
       "Decides the call discipline of UDP metrics on all paths: association added exactly once with the authenticating key id and removed exactly once; the client packet reported at most once per iteration, only when an association exists, with this iteration's read size and this iteration's target write size held in per-iteration variables; "
       "the target packet reported exactly once per non-expiry iteration with this iteration's read size and the byte count returned by the client write; statuses are \"OK\" or the error's status; every WithLabelValues has the vector's arity; sizes map to the right direction labels.",
       "Not decided: numeric equality of per-key sums with bytes on the sockets.", "DESIGN.md §4 C16")
+
+claim("C02", "other", "CFG must-pass / dominance queries on the relay functions, value provenance of the replaying reader, wrapper-transparency check",
+      "Decides on all paths: each relay copy is followed by CloseWrite of its own destination and CloseRead of its own source, and neither is applied to a connection whose copy runs in the other goroutine (a FIN only after all data of that direction); the relay joins its helper goroutine before returning and closes the target by a deferred Close; "
+      "the decrypting reader reads io.MultiReader(bytes.NewReader(B), R) with B the freshly allocated buffer io.ReadFull(R, B) filled from the same R; the handshake deadline is cleared before the relay starts; every method of the measuring wrapper delegates exactly once with unchanged arguments and results.",
+      "Not decided: byte equality, chunking, ordering inside SDK reader/writer and io.Copy.", "DESIGN.md §4 C02")
+claim("C15", "other", "path counting, CFG cut/must-pass on the authentication edges, value provenance of status and counters, wrapper-transparency and label tables",
+      "Decides the call discipline of TCP metrics on all paths: open reported at most once (exactly once with metrics configured) and its metrics object handed to the handler; AddClosed exactly once on every path before the client Close, with status \"OK\" only on the nil edge and otherwise the handler error's Status, carrying this connection's counters; "
+      "AddAuthenticated only on the success edge, on every path from it, at most once, with the authenticator's id, before further processing; AddProbe exactly once per authentication failure with the byte counter read after the drain; connections measured into the right counter pairs; the wrapper counts exactly the returned counts; label arity and direction mapping agree.",
+      "Not decided: numeric equality of counters with bytes on the wire.", "DESIGN.md §4 C15")
